@@ -41,6 +41,7 @@ res["files"] = files
 dst = None
 if os.path.exists(demo):
     dst = os.path.join(clone, demo_pkg, "zz_seed_%s_test.go" % n)
+    os.makedirs(os.path.dirname(dst), exist_ok=True)
     shutil.copy(demo, dst)
     src = open(demo).read()
     m = re.findall(r"^func (Test\w+)\(", src, re.M)
